@@ -906,6 +906,15 @@ func (c *flowCtx) recordReturn(r *ssa.Return, s *fstate) {
 // Condition constant carrying a System* flag (which GoError always turns into
 // an error — decided by C03.R1/R3).
 func (w *World) isErrorReturn(r *ssa.Return) bool {
+	if w.underSystemTest(r.Block(), 0) {
+		// reached only where a Condition was found to carry a System* flag, which goError always turns
+		// into an error (C03.R1)
+		for _, v := range r.Results {
+			if types.Identical(v.Type(), types.Universe.Lookup("error").Type()) {
+				return true
+			}
+		}
+	}
 	for _, v := range r.Results {
 		if typeIs(v.Type(), apdPath, "Condition") {
 			if k, ok := v.(*ssa.Const); ok && k.Value != nil {
@@ -1095,4 +1104,34 @@ func constBool0(g *ssa.Function, depth int) int {
 		return -1
 	}
 	return val
+}
+
+// underSystemTest: every edge into b is the true edge of a test
+// cond.SystemOverflow() / cond.SystemUnderflow() (the arms of an || chain
+// included).
+func (w *World) underSystemTest(b *ssa.BasicBlock, depth int) bool {
+	if len(b.Preds) == 0 || depth > 4 {
+		return false
+	}
+	for _, p := range b.Preds {
+		last := p.Instrs[len(p.Instrs)-1]
+		switch t := last.(type) {
+		case *ssa.If:
+			c, ok := t.Cond.(*ssa.Call)
+			if !ok || p.Succs[0] != b {
+				return false
+			}
+			n := w.calleeName(c)
+			if n != "(Condition).SystemOverflow" && n != "(Condition).SystemUnderflow" {
+				return false
+			}
+		case *ssa.Jump:
+			if !w.underSystemTest(p, depth+1) {
+				return false
+			}
+		default:
+			return false
+		}
+	}
+	return true
 }
